@@ -278,13 +278,33 @@ func RunDkgScenario(ctx context.Context, sc *DkgScenario, log *Log) error {
 		}
 		var res *pb.GenerateResponse
 		var gerr error
-		_ = c.deliver(in, "Generate", func() error {
-			res, gerr = in.St.AcctH.Generate(credsCtx(ctx, client, ""), roundTrip(&pb.GenerateRequest{Account: sc.Account, Passphrase: []byte("pass"),
-				Participants: sc.N, SigningThreshold: sc.T}, &pb.GenerateRequest{}))
-			return nil
-		})
+		// the client waits for its answer: a generation takes well under a second here and a session expires after ten; one that has
+		// not ended after 40 s is recorded as never-ending (the goroutines that still work on it are left behind)
+		type genOut struct {
+			res *pb.GenerateResponse
+			err error
+		}
+		gch := make(chan genOut, 1)
+		go func() {
+			var r0 *pb.GenerateResponse
+			var e0 error
+			_ = c.deliver(in, "Generate", func() error {
+				r0, e0 = in.St.AcctH.Generate(credsCtx(ctx, client, ""), roundTrip(&pb.GenerateRequest{Account: sc.Account, Passphrase: []byte("pass"),
+					Participants: sc.N, SigningThreshold: sc.T}, &pb.GenerateRequest{}))
+				return nil
+			})
+			gch <- genOut{r0, e0}
+		}()
+		hung := false
+		select {
+		case g := <-gch:
+			res, gerr = g.res, g.err
+		case <-time.After(40 * time.Second):
+			hung = true
+			gerr = fmt.Errorf("no answer after 40 s")
+		}
 		ok := gerr == nil && res != nil && res.GetState() == pb.ResponseState_SUCCEEDED
-		out := Ev{"ev": "Outcome", "ok": ok, "n": sc.N, "t": sc.T}
+		out := Ev{"ev": "Outcome", "ok": ok, "n": sc.N, "t": sc.T, "hung": hung}
 		parts := []uint64{}
 		if res != nil {
 			out["message"] = res.GetMessage()
